@@ -23,23 +23,54 @@ PROPS = [f"C{i:02d}" for i in range(1, 21)]
 def run_check(prop, tier, repo_root, quiet=False):
     t0 = time.time()
     seed = int(os.environ.get("VERIF_SEED", "0") or 0)
+    ctx = None
+    mod = None
     try:
         repo = Repo(repo_root)
         mod = importlib.import_module(f"gv.props.{prop.lower()}")
         ctx = Ctx(prop, repo, tier)
         mod.check(ctx)
-        if tier == "thorough" and hasattr(mod, "thorough"):
-            mod.thorough(ctx)
+        if tier == "thorough":
+            thorough_extra(ctx, mod)
         if not ctx.instances:
             raise AnalysisError("driver", prop, "no obligation was evaluated (vacuous run)")
         return finish(ctx, t0, mod.META, seed)
     except AnalysisError as e:
         print(f"ANALYSIS-ERROR property={prop} rule={e.rule} at {e.where}: {e.reason}")
-        return 2
+        return partial(ctx, mod, t0, seed, 2)
     except Exception as e:  # an analyser bug must never look like a violation
         print(f"ANALYSIS-ERROR property={prop} rule=internal at gv: {type(e).__name__}: {e}")
         traceback.print_exc(file=sys.stdout)
-        return 2
+        return partial(ctx, mod, t0, seed, 2)
+
+
+def partial(ctx, mod, t0, seed, code):
+    """A rule that became undecidable does not erase violations that other rules already established."""
+    if ctx is not None and mod is not None and any(i.verdict == "violated" for i in ctx.instances):
+        ctx.notes.append("the run stopped at an undecidable rule; the violations reported were established before that")
+        rc = finish(ctx, t0, mod.META, seed)
+        return rc if rc == 1 else code
+    return code
+
+
+def thorough_extra(ctx, mod):
+    """Thorough tier: the property's own deeper enumeration (if any) and the self-validation battery for this
+    property (breaking variants and benign twins of the current tree, seeded changes), analysed statically."""
+    if hasattr(mod, "thorough"):
+        mod.thorough(ctx)
+    from . import selftest
+
+    res = selftest.battery(ctx.repo.root, only=ctx.prop)
+    applicable = [r for r in res if r["status"] != "n/a"]
+    miss = [r for r in applicable if r["status"] == "MISS"]
+    for r in applicable:
+        what = f"self-validation {r['kind']} variant `{r['name']}`: " + ("must be reported" if r["kind"] == "break" else "must stay silent")
+        if r["status"] == "ok":
+            ctx.holds("SELF", "scratch copy of /repo", what, exit=r.get("exit"), rules=r.get("rules"))
+    ctx.notes.append(f"self-validation: {len(applicable)} variants of the current tree analysed ({len(res) - len(applicable)} not applicable to this tree), {len(miss)} not as expected")
+    if miss and not any(i.verdict == "violated" for i in ctx.instances):
+        m = miss[0]
+        raise AnalysisError("SELF", "gv.selftest", f"{len(miss)} self-validation variant(s) not as expected, e.g. {m['kind']} `{m['name']}` -> exit {m.get('exit')}: the checker is unreliable for this tree")
 
 
 def main(argv=None):
